@@ -205,8 +205,9 @@ pub fn archive(max_entries: usize, max_content: u32, allow_unsupported: bool) ->
         junk(200),
         prop_oneof![4 => Just(None), 2 => any::<[bool; 3]>().prop_map(Some)],
         junk(30),
+        prop_oneof![3 => Just(vec![]), 1 => proptest::collection::vec(any::<u8>(), 1..60), 1 => Just(vec![0u8; 4])],
     )
-        .prop_map(|(mut entries, dups, shuffle, sseed, prefix, comment, trailing, zip64_end, gap_cd)| {
+        .prop_map(|(mut entries, dups, shuffle, sseed, prefix, comment, trailing, zip64_end, gap_cd, zext)| {
             // duplicate names
             if entries.len() >= 2 {
                 for pair in dups.chunks(2) {
@@ -238,7 +239,8 @@ pub fn archive(max_entries: usize, max_content: u32, allow_unsupported: bool) ->
             if zip64_end.is_some() || comment.len() + trailing.len() > 65535 {
                 trailing.clear();
             }
-            ArchiveSpec { entries, central_order, prefix, comment, trailing, zip64_end, gap_before_cd: no_sig(gap_cd) }
+            let zip64_ext = if zip64_end.is_some() { no_sig(zext) } else { Vec::new() };
+            ArchiveSpec { entries, central_order, prefix, comment, trailing, zip64_end, gap_before_cd: no_sig(gap_cd), zip64_ext }
         })
         .boxed()
 }
@@ -248,7 +250,7 @@ pub fn zip64_search_ambiguous(spec: &ArchiveSpec, built: &crate::refzip::Built) 
     if spec.zip64_end.is_none() && spec.entries.len() <= 0xFFFF {
         return false;
     }
-    let true_pos = built.eocd_pos.saturating_sub(76) as usize;
+    let true_pos = built.eocd_pos.saturating_sub(76 + spec.zip64_ext.len() as u64) as usize;
     let nominal = true_pos.saturating_sub(built.prefix_len as usize);
     let hay = &built.bytes[nominal.min(built.bytes.len())..(true_pos + 3).min(built.bytes.len())];
     hay.windows(4).take(true_pos - nominal).any(|w| w == [0x50, 0x4b, 0x06, 0x06])
